@@ -388,7 +388,8 @@ def check(model, rep):
     # ---------------------------------------------------------------- R18.1
     rep.rule('R18.1', 'plane through three points contains them (n.p - d == 0); mirror uses the same sign of d, |n|^2, p + 2kn; '
                       'mirror plane = local XY plane of the frame')
-    pf = F(FSR, 'planeFromThreePoints')
+    from .common_ops import flat_function as _ff18
+    pf = _ff18(F(FSR, 'planeFromThreePoints'))           # module-private helpers read in place
     it = PolyInterp()
     pts = []
     for k, p in enumerate(pf.params):
@@ -596,6 +597,13 @@ def check(model, rep):
             if length == 0:
                 return b
             return tm(a.TAA + (diff[0:6] / length) * step)
+        """, """
+        def closeLinearGap(a, b, step):
+            diff = b - a
+            length = mr.Norm6(diff[0:6])
+            if length == 0:
+                return b
+            return tm(a.TAA.reshape((6, 1)) + (diff[0:6] / length) * step)
         """], 'closeLinearGap does not advance by exactly delta along the unit direction to the goal')
     MID = """
         def tmInterpMidpoint(a, b):
